@@ -88,19 +88,56 @@ type vCtx struct {
 	deadline time.Time
 	hasDL    bool
 	children []*vCtx
+	// natively the context is a standard library one underneath, so that contexts derived from it
+	// (Dial's timeout context) are cancelled synchronously with it, as for any context built by
+	// the context package; under the engine the fields above are the whole context
+	std       context.Context
+	stdCancel context.CancelFunc
 }
 
-func vNewCtx() *vCtx { return &vCtx{done: make(chan struct{})} }
+func vNewCtx() *vCtx {
+	c := &vCtx{done: make(chan struct{})}
+	if !vSymbolic() {
+		c.std, c.stdCancel = context.WithCancel(context.Background())
+	}
+	return c
+}
 
-func (c *vCtx) Deadline() (time.Time, bool)       { return c.deadline, c.hasDL }
-func (c *vCtx) Done() <-chan struct{}             { return c.done }
-func (c *vCtx) Value(key interface{}) interface{} { return nil }
+// setDeadline gives the context a deadline (before it is handed to Dial).
+func (c *vCtx) setDeadline(t time.Time) {
+	c.deadline, c.hasDL = t, true
+	if !vSymbolic() {
+		c.stdCancel()
+		c.std, c.stdCancel = context.WithDeadline(context.Background(), t)
+	}
+}
+
+func (c *vCtx) Deadline() (time.Time, bool) { return c.deadline, c.hasDL }
+func (c *vCtx) Done() <-chan struct{} {
+	if !vSymbolic() {
+		return c.std.Done()
+	}
+	return c.done
+}
+func (c *vCtx) Value(key interface{}) interface{} {
+	if !vSymbolic() {
+		return c.std.Value(key)
+	}
+	return nil
+}
 func (c *vCtx) Err() error {
+	if !vSymbolic() {
+		return c.std.Err()
+	}
 	c.mu.Lock()
 	defer c.mu.Unlock()
 	return c.err
 }
 func (c *vCtx) cancel(err error) {
+	if !vSymbolic() {
+		c.stdCancel()
+		return
+	}
 	c.mu.Lock()
 	if c.err != nil {
 		c.mu.Unlock()
@@ -169,6 +206,10 @@ type vDConn struct {
 
 var vTheConn *vDConn
 
+// vLateWatcher (native only): the stub connection neither yields nor waits for the watcher, so
+// that under GOMAXPROCS(1) the watcher goroutine first runs when Dial blocks waiting for it.
+var vLateWatcher bool
+
 // op marks the start of connection operation #k; opEnd its completion.  The context is
 // cancelled at the start (cancelLate=false) or at the end (cancelLate=true) of operation
 // #cancelAt.  Natively the canceller then waits (<= 20 ms) for the watcher to poison the
@@ -185,20 +226,24 @@ func (c *vDConn) op() int {
 	if c.ctx != nil && k == c.cancelAt && !c.cancelLate {
 		c.cancelNow()
 	}
-	vYield()
+	if vSymbolic() || !vLateWatcher {
+		vYield()
+	}
 	return k
 }
 
 func (c *vDConn) opEnd(k int) {
 	if c.ctx != nil && k == c.cancelAt && c.cancelLate {
 		c.cancelNow()
-		vYield()
+		if vSymbolic() || !vLateWatcher {
+			vYield()
+		}
 	}
 }
 
 func (c *vDConn) cancelNow() {
 	c.ctx.cancel(context.Canceled)
-	if !vSymbolic() {
+	if !vSymbolic() && !vLateWatcher {
 		for i := 0; i < 20 && !c.expired() && !(c.hold && c.entered()); i++ {
 			time.Sleep(time.Millisecond)
 		}
